@@ -1606,6 +1606,7 @@ package scipipe
 //@   modifies effMkdir, effShell, fsEpoch, locked
 //@   ensures fifo-exists-or-made[C17]: effShell["mkfifo " + ip.path + ".fifo"] || old(effShell)["mkfifo " + ip.path + ".fifo"] || (exists e int :: statOK(e, ip.path + ".fifo"))
 //@   ensures no-regular-file[C17]: effCreated == old(effCreated) && effRenamed == old(effRenamed)
+//@   ensures shell-log-grows: forall s string :: old(effShell)[s] ==> effShell[s]
 
 // The Go statement `go t.Execute()`: one more task execution has been started.
 
